@@ -128,7 +128,21 @@ FIXED_PROGRAMS = [
     ("w-multiline", 'print! """a"b\nc\\\\d"""\n'),
     ("w-exit-status", 'print! "before"\nassert 1 == 2\nprint! "after"\n'),
     ("w-exit-code", 'print! "x"\nexit 3\n'),
+    ("w-if-precedence", 'v: Int = 10\nprint!((2 * if(v > 30, do(4), do(v))), (1 + if(v > 30, do(4), do(v))))\n'),
+    ("w-range-first", 'for! 2..<3, i1 =>\n    print!(True)\n    print!(i1)\nprint! 1.5\n'),
 ]
+
+
+def fragment_programs(seed, n):
+    """programs of the checked fragment (vlib/fraggen.py: literals, operators, calls, print!, definitions, lambdas, if/for/while
+    through the prelude functions, lists, string contents from the hard pool) with their independent Python reading"""
+    from vlib import fraggen
+    progs = []
+    for i in range(n):
+        g = fraggen.Gen(fraggen.Rng(seed * 100003 + i), hard_strings=True)
+        p = g.program()
+        progs.append(("frag-%d" % i, fraggen.to_erg(p), None, fraggen.to_python(p)))
+    return progs
 
 
 def corpus_programs(repo, tier, seed):
@@ -146,7 +160,7 @@ def corpus_programs(repo, tier, seed):
 NONDETERMINISTIC = ("random", "time", "datetime", "input!", "urllib", "socket", "subprocess", "http", "tqdm", "requests", "glob", "os.")
 
 
-def one_program(erg, env, work, name, src, path):
+def one_program(erg, env, work, name, src, path, oracle=None):
     """returns (outcome, details); outcome in same / declined / rejected / skipped / invalid-python / differs"""
     d = os.path.join(work, name.replace("/", "_").replace(".", "_"))
     os.makedirs(d, exist_ok=True)
@@ -174,6 +188,12 @@ def one_program(erg, env, work, name, src, path):
     rs, os_, es = run_cmd([PY, stem + ".py"], d, env)
     det = {"script_is_valid_python": rcc == 0, "compile_error": ec[-600:] if rcc != 0 else "", "script_stdout": os_[-1500:], "script_exit": rs,
            "script_stderr": es[-800:], "bytecode_stdout": ob[-1500:], "bytecode_exit": rb, "bytecode_stderr": eb[-800:]}
+    if oracle is not None:
+        open(stem + "_oracle.py", "w", encoding="utf-8").write(oracle)
+        ro, oo, eo = run_cmd([PY, stem + "_oracle.py"], d, env)
+        det.update({"oracle_stdout": oo[-1500:], "oracle_exit": ro,
+                    "script_equals_oracle": (oo == os_ and (ro == 0) == (rs == 0)),
+                    "bytecode_equals_oracle": (oo == ob and (ro == 0) == (rb == 0))})
     if 124 in (rcc, rb, rs):
         return "skipped", det       # a timeout under machine load is not an observation
     if rcc != 0:
@@ -199,13 +219,21 @@ def behavioural(ctx, bindir):
     recorded = {f: (k, kind) for k, fl in BEHAVIOUR_FINDINGS.items() for f, kind in fl.items()}
     seen_known = {}
     try:
-        progs = [(n, s, None) for n, s in FIXED_PROGRAMS + literal_programs(ctx.seed, 60 if ctx.tier == "thorough" else 14)]
+        progs = [(n, s, None, None) for n, s in FIXED_PROGRAMS + literal_programs(ctx.seed, 60 if ctx.tier == "thorough" else 14)]
+        progs += fragment_programs(ctx.seed, 300 if ctx.tier == "thorough" else 30)
         for f in corpus_programs(core.REPO, ctx.tier, ctx.seed):
-            progs.append((os.path.relpath(f, core.REPO), open(f, encoding="utf-8", errors="replace").read(), f))
+            progs.append((os.path.relpath(f, core.REPO), open(f, encoding="utf-8", errors="replace").read(), f, None))
         with ThreadPoolExecutor(max_workers=6) as ex:
             results = list(ex.map(lambda p: one_program(erg, env, work, *p), progs))
-        for (name, src, path), (outcome, det) in zip(progs, results):
+        for (name, src, path, oracle), (outcome, det) in zip(progs, results):
             stats[outcome] = stats.get(outcome, 0) + 1
+            if outcome == "differs" and oracle is not None and det.get("script_equals_oracle") and not det.get("bytecode_equals_oracle"):
+                # the script does what the independent Python reading of the program does; it is the *bytecode* that deviates
+                # (bytecode-side findings of C01/C02/C04). Recorded class: structural = fragment program with an oracle,
+                # signature = script == oracle and bytecode != oracle.
+                seen_known.setdefault("C17-bytecode-deviates", []).append(name)
+                stats["known-finding"] = stats.get("known-finding", 0) + 1
+                continue
             if outcome in ("same",) and len(samples) < 6:
                 samples.append({"program": name, "stdout": det["bytecode_stdout"][:100], "exit": det["bytecode_exit"]})
             if name in recorded:
